@@ -1722,6 +1722,15 @@ class World:
             self.flag("C14", "I2", "%s/%s/raises" % (name, self._kinds(lspec, rspec)),
                       {"exc": repr(ex), "op": op})
             return
+        if a.get("fault") and le is not None and re_ is not None \
+                and le.meta["mesh"] != re_.meta["mesh"]:
+            # operands on different meshes were accepted (their shapes happen to
+            # broadcast, e.g. 1 cell against 3 cells = 1 cell + 2 ghost cells): the
+            # outcome of an unsupported call is unspecified; nothing is judged and
+            # the result does not enter the pool (operands are still frame-checked)
+            ctx.status = "ok-unexpected"
+            self.stats["fault-not-fired:algebra_mismatch-accepted"] += 1
+            return
         parents = tuple(x.name for x in (le, re_) if x is not None)
         for x in (le, re_):
             if x is not None:
